@@ -253,12 +253,32 @@ class Engine(ExprMixin, StmtMixin, CallMixin):
         self.st.mem.setdefault(r.id, arr)
         return r
 
-    def select(self, arr, idx):
+    def select(self, arr, idx, rid=None):
         """array read; at a literal index the read is resolved through stores / lambdas right away"""
-        i = z3.simplify(idx)
+        i = idx if z3.is_bv_value(idx) else z3.simplify(idx)
         if z3.is_bv_value(i):
-            return z3.simplify(z3.Select(arr, i))
+            if rid is not None:
+                ent = self.st.lit.get(rid)
+                if ent is not None and ent[2].eq(arr):
+                    v = ent[1].get(i.as_long())
+                    if v is not None:
+                        return v
+            v = z3.simplify(z3.Select(arr, i))
+            if rid is not None:
+                ent = self.st.lit.get(rid)
+                if ent is None or not ent[2].eq(arr):
+                    ent = (arr.get_id(), {}, arr)
+                    self.st.lit[rid] = ent
+                ent[1][i.as_long()] = v
+            return v
         return z3.Select(arr, idx)
+
+    def store_lit(self, rid, old_arr, new_arr, idx, v):
+        """keep the literal-index view in step with a store at a literal index"""
+        ent = self.st.lit.get(rid)
+        d = dict(ent[1]) if ent is not None and ent[2].eq(old_arr) else {}
+        d[idx] = v
+        self.st.lit[rid] = (new_arr.get_id(), d, new_arr)
 
     def upper_bound(self, term, mx):
         """largest value <= mx that `term` can take under the ENTRY facts of the function under verification (sound for
